@@ -16,6 +16,7 @@
 package c05
 
 import (
+	"sync"
 	"encoding/hex"
 	"encoding/json"
 	"fmt"
@@ -50,7 +51,12 @@ type StatCase struct {
 	Via   string `json:"via,omitempty"`   // "" Roll(src,n,0) | "vm" script "<Times>d<N>"
 	Times int    `json:"times,omitempty"` // vm: dice per Run
 	Class string `json:"class,omitempty"` // generator label, not used by the oracle
+	// Lead (vm): text in front of the measured term in the same evaluation, %d = N: other dice terms with clamps and
+	// keeps, whose settings must not reach the measured dice
+	Lead string `json:"lead,omitempty"`
 }
+
+var vmLeads = []string{"", "", "d%[1]dmin%[1]d; ", "d%[1]dmax1; ", "3d%[1]dk1; ", "d%[1]dmin%[1]d + ", "2d%[1]dmax1 + ", "2d%[1]dkl1min%[1]d; d%[1]d; "}
 
 func newSrc(seedHex string) (*rand.PCGSource, []byte, error) {
 	b, err := hex.DecodeString(seedHex)
@@ -403,6 +409,9 @@ func feedVM(c StatCase, seed []byte, a *acc, s *rt.Section) *rt.Failure {
 	vm.Init()
 	vm.Config.OpCountLimit = 30000
 	prog := fmt.Sprintf("%dd%d", times, c.N)
+	if c.Lead != "" {
+		prog = fmt.Sprintf(c.Lead, c.N) + prog
+	}
 	for seen := 0; seen < c.Draws; {
 		if err := vm.Run(prog); err != nil {
 			return s.NewFailure("vm-runs", "vm:error", c, fmt.Sprintf("%q: %v", prog, err), "no error")
@@ -410,16 +419,19 @@ func feedVM(c StatCase, seed []byte, a *acc, s *rt.Section) *rt.Failure {
 		if strings.TrimSpace(vm.RestInput) != "" {
 			return s.NewFailure("vm-runs", "vm:rest", c, fmt.Sprintf("%q leaves %q unparsed", prog, vm.RestInput), "whole text consumed")
 		}
+		// the measured term is the last one of the text
 		var text string
-		found := 0
+		found, lastBegin := 0, ds.IntType(-1)
 		for _, sp := range vm.DetailSpans {
 			if sp.Tag == "dice" {
-				text = sp.Text
 				found++
+				if sp.Begin > lastBegin {
+					text, lastBegin = sp.Text, sp.Begin
+				}
 			}
 		}
-		if found != 1 {
-			return s.NewFailure("vm-runs", "vm:no-dice-span", c, fmt.Sprintf("%q: %d spans tagged dice", prog, found), "one")
+		if want := 1 + strings.Count(c.Lead, "d%"); found != want {
+			return s.NewFailure("vm-runs", "vm:no-dice-span", c, fmt.Sprintf("%q: %d spans tagged dice", prog, found), fmt.Sprint(want))
 		}
 		parts := strings.Split(text, "+")
 		if len(parts) != times {
@@ -546,6 +558,53 @@ func checkSource(c SourceCase, s *rt.Section) *rt.Failure {
 
 // ---------------------------------------------------------------------------
 // generators
+
+// FallbackCase: concurrent draws from the package-level generator.
+type FallbackCase struct {
+	Goroutines int `json:"goroutines"`
+	Draws      int `json:"draws"`
+}
+
+func checkFallback(c FallbackCase, s *rt.Section) *rt.Failure {
+	if c.Goroutines < 1 || c.Goroutines > 64 || c.Draws < 1 || c.Draws > 1_000_000 {
+		return s.NewFailure("replay", "replay:bad-case", c, "goroutines outside 1..64 or draws outside 1..1e6", "")
+	}
+	const n = int64(1) << 62
+	out := make([][]int64, c.Goroutines)
+	var wg sync.WaitGroup
+	start := make(chan struct{})
+	for g := range out {
+		wg.Add(1)
+		go func(g int) {
+			defer wg.Done()
+			buf := make([]int64, c.Draws)
+			<-start
+			for i := range buf {
+				buf[i] = int64(ds.Roll(nil, ds.IntType(n), 0))
+			}
+			out[g] = buf
+		}(g)
+	}
+	close(start)
+	wg.Wait()
+	seen := make(map[int64]struct{}, c.Goroutines*c.Draws)
+	repeats := 0
+	for _, buf := range out {
+		for _, x := range buf {
+			if x < 1 || x > n {
+				return s.NewFailure("range", "range:nil-source", c, fmt.Sprintf("Roll(nil,2^62,0) = %d", x), "1..2^62")
+			}
+			if _, dup := seen[x]; dup {
+				repeats++
+			}
+			seen[x] = struct{}{}
+		}
+	}
+	if repeats > 1 {
+		return s.NewFailure("independent-draws", "fallback:repeated-draws", c, fmt.Sprintf("%d of %d concurrent draws from the package-level generator repeat an earlier value", repeats, c.Goroutines*c.Draws), "no repeats among independent 62-bit draws")
+	}
+	return nil
+}
 
 func isPow2(n uint64) bool { return n&(n-1) == 0 }
 
@@ -754,10 +813,11 @@ func TestProp(t *testing.T) {
 		os.Setenv("VERIF_SHRINKTIME", "0s")
 	}
 	run.Check("vm", 96, 256,
-		fmt.Sprintf("script \"<K>d<n>\" (K in {20,100,500}) run repeatedly (at most 1000 Runs) on one Context seeded with 16 random bytes until %d dice were printed in the dice span of the process text; n drawn as in section large; the printed dice are judged like direct draws (range, faces / quantile and residue cells, successive pairs), and the package-global generator must be untouched; non-trivial = n not a power of two or n > 2^32; distinct by (n, K, state)", vdraws),
+		fmt.Sprintf("script \"<lead><K>d<n>\" (K in {20,100,500}; lead = nothing or other dice terms with min/max clamps and keeps in the same evaluation, as statements or summands) run repeatedly (at most 1000 Runs) on one Context seeded with 16 random bytes until %d dice were printed in the dice span of the process text; n drawn as in section large; the printed dice are judged like direct draws (range, faces / quantile and residue cells, successive pairs), and the package-global generator must be untouched; non-trivial = n not a power of two or n > 2^32; distinct by (n, K, state)", vdraws),
 		func(t *rapid.T, s *rt.Section) {
 			n, kind := drawN(t, s, 0)
-			c := StatCase{N: n, Seed: drawSeed(t), Draws: vdraws, Via: "vm", Times: rapid.SampledFrom([]int{20, 100, 500}).Draw(t, "times"), Class: kind}
+			c := StatCase{N: n, Seed: drawSeed(t), Draws: vdraws, Via: "vm", Times: rapid.SampledFrom([]int{20, 100, 500}).Draw(t, "times"), Class: kind,
+				Lead: rapid.SampledFrom(vmLeads).Draw(t, "lead")}
 			if c.Draws > c.Times*1000 {
 				c.Draws = c.Times * 1000 // at most 1000 Runs per case
 			}
@@ -777,6 +837,16 @@ func TestProp(t *testing.T) {
 	if noShrink {
 		os.Unsetenv("VERIF_SHRINKTIME")
 	}
+
+	// ---- the fallback generator under concurrent use
+	run.Enum("fallback", "8 goroutines draw Roll(nil, 2^62, 0) 150000 times each at the same time (the package-level generator that unseeded contexts share): every draw in range and at most one value drawn twice among the 1.2 million (independent 62-bit draws show one repeat with probability 2e-7, two with 2e-14; a generator stepped without mutual exclusion repeats thousands of times); non-trivial = the run itself; one shard runs it", func(s *rt.Section) {
+		if run.Env.Shard != 0 {
+			return
+		}
+		s.Eval()
+		s.NonTrivial(rt.Hash("fallback"))
+		s.Report(nil, checkFallback(FallbackCase{Goroutines: 8, Draws: 150000}, s))
+	})
 
 	// ---- source discipline
 	run.Check("source", 40000, 400000,
@@ -855,6 +925,18 @@ func TestReplay(t *testing.T) {
 				return s.NewFailure("replay", "replay:bad-case", nil, err.Error(), "")
 			}
 			return checkSource(c, s)
+		},
+		"fallback": func(b []byte, s *rt.Section) *rt.Failure {
+			var c FallbackCase
+			if err := json.Unmarshal(b, &c); err != nil {
+				return s.NewFailure("replay", "replay:bad-case", nil, err.Error(), "")
+			}
+			for i := 0; i < 5; i++ { // schedule dependent
+				if f := checkFallback(c, s); f != nil {
+					return f
+				}
+			}
+			return nil
 		},
 	})
 }
